@@ -82,6 +82,8 @@ def handleIO (line : String) : IO String := do
   | "oafdoc" :: rest => oafdocLine (" ".intercalate rest)
   | "jsfkeeps" :: rest => jsfkeepsLine (" ".intercalate rest)
   | "jsfc08" :: rest => jsfc08Line (" ".intercalate rest)
+  | "oafkeeps" :: rest => oafkeepsLine (" ".intercalate rest)
+  | "oafc08" :: rest => oafc08Line (" ".intercalate rest)
   | "srcpy" :: rest => srcpyLine (" ".intercalate rest)
   | "godefaults" :: rest => godefaultsLine (" ".intercalate rest)
   | "pydefaults" :: rest => pydefaultsLine (" ".intercalate rest)
